@@ -12,6 +12,7 @@ import (
 	_ "verif/harness/c07"
 	_ "verif/harness/c08"
 	_ "verif/harness/c13"
+	_ "verif/harness/c15"
 )
 
 func main() { worker.Main(hk.Registry, hk.Replayers) }
